@@ -79,6 +79,12 @@ chk("C15", "exploration",
     "exhaustive product of programs x account kinds x times on the real app (FinalizeBlock and StateDB API on branch states) with full pre/post account observation",
     "DESIGN.md §5 C15", "grid")
 
+chk("C12", "exploration",
+    "Exhaustive enumeration of every call chain E->F0->...->precompile with op[i] in {CALL, DELEGATECALL, CALLCODE, STATICCALL}^L, L = 0..3 (thorough 0..6), through generic forwarder contracts (bubbling and swallowing) x every method of every custom precompiled contract read from the live registry (49 methods: 2 ERC-20, staking, bech32) x 1-3 argument lists per method and caller (EIP-712 messages signed by the calling frame's key), each executed by the real NewStateDB + NewEVM + evm.Call + CommitMultiStore on a branch of one state prepared by real blocks (delegations by signed txs, rewards from distributed fees). A sequence containing a STATICCALL must leave the dump of all stores unchanged and emit no log; its STATICCALL-free twin is the normal-context reference (succeeds, a writer changes state, a ReadOnly() method changes nothing). Per writer: RequireGas() > 0, under-funded calls fail without effect, a funded call consumes gas. Three programs are repeated as signed transactions in a committed block and must agree with the keeper-level result.",
+    "One prepared initial state and call value 0 everywhere; keeper-level driving (no ante handler/fees) cross-checked by three ABCI-level transactions; state comparison ignores the auth global account number and account-number-only differences; argument lists are representatives, not all arguments; depth-major enumeration with a time budget that can only lower chain_length_completed / set exhaustive=false.",
+    "bounded-exhaustive program enumeration (call-opcode sequences x registry methods) with twin-run differential oracle on full store dumps, defect-aware classification, process-sharded",
+    "DESIGN.md §5 C12", "seqx-branch")
+
 NOT_YET = "check not built yet in this round (planned, see DESIGN.md §9)"
 
 def main():
